@@ -415,6 +415,10 @@ class Worker:
                 addr = self._ready_task_ids.get_nowait()
 
             except Empty:
+                if len(self._delayed_tasks) > 0:
+                    # A batch was delayed since the check at the loop top
+                    self.read_receipt_mutex.release()
+                    continue
                 payload = (1, self.most_recent_read_submit)
                 self._conn.send((RuntimeMessage.WAITING, payload))
                 self.read_receipt_mutex.release()
